@@ -144,10 +144,29 @@ func parsePlugins(ifi rawInterface, maxInterval time.Duration, epoch time.Time) 
 			return nil, err
 		}
 
+		if err := checkPREF64Prefix(prefix); err != nil {
+			return nil, fmt.Errorf("failed to parse PREF64 prefix %q: %v", base, err)
+		}
+
 		plugins = append(plugins, plugin.NewPREF64(prefix, maxInterval))
 	}
 
 	return plugins, nil
+}
+
+// checkPREF64Prefix verifies that p can be encoded in a PREF64 option: it must
+// be an IPv6 prefix with one of the lengths permitted by RFC 8781, section 4.
+func checkPREF64Prefix(p netip.Prefix) error {
+	if !p.Addr().Is6() || p.Addr().Is4In6() {
+		return errors.New("not an IPv6 CIDR prefix")
+	}
+
+	switch p.Bits() {
+	case 96, 64, 56, 48, 40, 32:
+		return nil
+	default:
+		return errors.New("prefix length must be one of 96, 64, 56, 48, 40, or 32")
+	}
 }
 
 // parseDNSSL parses a DNSSL plugin.
